@@ -724,6 +724,22 @@ def judge(history, wres, refget):
         verdict, detail = "ok", None
         if w["status"] == "skipped":
             continue
+        if w.get("canary"):
+            # canaries ran under whatever options this step left behind; alone they run under the options the session owns
+            from .world import CANARIES
+            for ci, (spec, steps) in enumerate(zip(CANARIES, w["canary"])):
+                r = refget(dict(spec, options=w.get("canary_options") or {}))
+                stats["units"] += 1
+                if r.get("status") != "done":
+                    continue
+                for name, wr in steps.items():
+                    rr = r["steps"].get(name)
+                    if rr is None:
+                        continue
+                    v3, d3 = (_cmp_goal(wr, rr, _numeric({"options": w.get("canary_options")})) if name.startswith("goal:") else _cmp_status(wr, rr))
+                    if v3 == "diff":
+                        problems.append(dict(d3, op=oi, sid=op["sid"], step=f"{step}+canary:{ci}:{name}", session_kind=sess["kind"], pid=sess.get("pid"),
+                                             note="an analysis performed right after this step, under the options the session had set, differs: the step changed global options"))
         if w.get("knob_canary"):
             # the step changed an interpreter-global setting (recursion limit, integer-text limit, working directory): analyses whose
             # outcome depends on such a setting ran right after it and must behave as they do in a fresh interpreter
@@ -804,22 +820,6 @@ def judge(history, wres, refget):
                     else:
                         stats["ok"] += 1
                 continue
-        if w.get("canary"):
-            # canaries ran under whatever options this step left behind; alone they run under the options the session owns
-            from .world import CANARIES
-            for ci, (spec, steps) in enumerate(zip(CANARIES, w["canary"])):
-                r = refget(dict(spec, options=w.get("canary_options") or {}))
-                stats["units"] += 1
-                if r.get("status") != "done":
-                    continue
-                for name, wr in steps.items():
-                    rr = r["steps"].get(name)
-                    if rr is None:
-                        continue
-                    v3, d3 = (_cmp_goal(wr, rr, _numeric({"options": w.get("canary_options")})) if name.startswith("goal:") else _cmp_status(wr, rr))
-                    if v3 == "diff":
-                        problems.append(dict(d3, op=oi, sid=op["sid"], step=f"{step}+canary:{ci}:{name}", session_kind=sess["kind"], pid=sess.get("pid"),
-                                             note="an analysis performed right after this step, under the options the session had set, differs: the step changed global options"))
         stats["compared"] += 1
         if verdict == "diff":
             problems.append(dict(detail, op=oi, sid=op["sid"], step=step, session_kind=sess["kind"], pid=sess.get("pid")))
@@ -874,6 +874,10 @@ def _strip(r):
     r.pop("plog", None)
     if r.get("status") == "refused":
         r.pop("msg", None)
+    for key in ("canary", "knob_canary"):
+        if r.get(key):
+            # the steps of canary analyses carry wall-clock times as well
+            r[key] = [{name: _strip(st) for name, st in steps.items()} for steps in r[key]]
     return r
 
 
